@@ -155,7 +155,10 @@ def build(ctx):
     F("volume"), F("to_cartesian"), F("to_fractional"), F("reciprocal_lattice"), F("__init__"), F("set_vectors")
     for n in ("a_star", "b_star", "c_star", "alpha_star", "beta_star", "gamma_star", "a", "b", "c", "alpha", "beta", "gamma", "v_a_star", "v_b_star",
               "v_c_star", "from_lengths_and_angles", "cubic", "triclinic", "monoclinic", "tetragonal", "hexagonal", "rhombohedral", "orthorhombic"):
-        F(n)
+        try:
+            F(n)
+        except KeyError:       # (an accessor no longer written as a def of its own, e.g. generated by a property factory: it is reached through the functions that read it)
+            ctx.notes.append(f"C12: UnitCell.{n} is not a function definition of its own in this tree")
     xs = reals("x", 3)
 
     def routeA(I2, _a, kw):
